@@ -80,14 +80,25 @@ const MAP: [Option<usize>; 4] = [Some(0), Some(0), Some(1), Some(1)];
 const SAMPLES: &str = "s0=p0,s1=p0,s2=p1,s3=p1";
 const TARGET: [usize; 2] = [2, 2];
 
-fn site_name(i: usize) -> (String, usize) {
-    (format!("chr{}", i % 2 + 1), 10 + i)
+/// Where the records sit: at pairwise different positions, or all at one contig:position (as when a
+/// multiallelic site is split over several records) - the accounting must not depend on it.
+#[derive(Clone, Copy, Debug, PartialEq, Eq)]
+enum Pos {
+    Unique,
+    Same,
 }
 
-fn vcf_for(stream: &[Sym]) -> String {
+fn site_name(i: usize, pos: Pos) -> (String, usize) {
+    match pos {
+        Pos::Unique => (format!("chr{}", i % 2 + 1), 10 + i),
+        Pos::Same => ("chr1".to_string(), 10),
+    }
+}
+
+fn vcf_for(stream: &[Sym], posn: Pos) -> String {
     let mut s = String::from("##fileformat=VCFv4.3\n##FILTER=<ID=PASS,Description=\"All filters passed\">\n##contig=<ID=chr1,length=1000>\n##contig=<ID=chr2,length=1000>\n##FORMAT=<ID=GT,Number=1,Type=String,Description=\"Genotype\">\n#CHROM\tPOS\tID\tREF\tALT\tQUAL\tFILTER\tINFO\tFORMAT\ts0\ts1\ts2\ts3\n");
     for (i, sym) in stream.iter().enumerate() {
-        let (chrom, pos) = site_name(i);
+        let (chrom, pos) = site_name(i, posn);
         match sym {
             Sym::Corrupt => s.push_str(&format!("{chrom}\tnot-a-position\t.\tA\tC,G\t.\t.\t.\tGT\t0/0\t0/0\t0/0\t0/0\n")),
             Sym::Ploidy => s.push_str(&format!("{chrom}\t{pos}\t.\tA\tC,G\t.\t.\t.\tGT\t0/1\t0\t0/0\t0/0\n")),
@@ -143,8 +154,8 @@ fn parse_skipped(stderr: &str) -> Option<(usize, usize)> {
     Some((x.trim().parse().ok()?, y.parse().ok()?))
 }
 
-fn run_mode(stream: &[Sym], mode: Mode, scratch: &Scratch) -> Out {
-    let vcf = vcf_for(stream);
+fn run_mode(stream: &[Sym], mode: Mode, posn: Pos, scratch: &Scratch) -> Out {
+    let vcf = vcf_for(stream, posn);
     let mut args = vec!["create", "-s", SAMPLES];
     match mode {
         Mode::Default => {}
@@ -154,8 +165,8 @@ fn run_mode(stream: &[Sym], mode: Mode, scratch: &Scratch) -> Out {
     run_sfs(&args, Stdin::Bytes(vcf.as_bytes()), scratch)
 }
 
-fn eval(stream: &[Sym], mode: Mode, scratch: &Scratch) -> Vec<Viol> {
-    let o = run_mode(stream, mode, scratch);
+fn eval(stream: &[Sym], mode: Mode, posn: Pos, scratch: &Scratch) -> Vec<Viol> {
+    let o = run_mode(stream, mode, posn, scratch);
     let exp = expectation(stream, mode);
     let mut problems: Vec<(String, String)> = Vec::new();
     let stderr = o.stderr_str();
@@ -172,7 +183,7 @@ fn eval(stream: &[Sym], mode: Mode, scratch: &Scratch) -> Vec<Viol> {
                     problems.push((format!("failure-not-diagnosed|{kind}"), format!("{} {}", o.status_str(), stderr.trim())));
                 }
                 if *named {
-                    let (c, p) = site_name(*at);
+                    let (c, p) = site_name(*at, posn);
                     if !stderr.contains(&format!("'{c}:{p}'")) {
                         problems.push((format!("failure-names-wrong-site|{kind}"), format!("the first failing record is '{c}:{p}' but stderr is {:?}", stderr.trim())));
                     }
@@ -212,7 +223,7 @@ fn eval(stream: &[Sym], mode: Mode, scratch: &Scratch) -> Vec<Viol> {
     }
     // strict without a failing record: identical to the default run
     if mode == Mode::Strict && matches!(exp, Expected::Success { .. }) && o.ok() {
-        let d = run_mode(stream, Mode::Default, scratch);
+        let d = run_mode(stream, Mode::Default, posn, scratch);
         if d.stdout != o.stdout {
             problems.push(("strict-differs-from-default".into(), format!("strict stdout {:?}, default stdout {:?}", o.stdout_str(), d.stdout_str())));
         }
@@ -221,13 +232,14 @@ fn eval(stream: &[Sym], mode: Mode, scratch: &Scratch) -> Vec<Viol> {
         .into_iter()
         .map(|(k, w)| {
             (
-                format!("C10|cli|{k}|{mode:?}"),
-                format!("stream {} in mode {mode:?}: {w}", stream_str(stream)),
+                format!("C10|cli|{k}|{mode:?}{}", if posn == Pos::Same { "|same-position" } else { "" }),
+                format!("stream {} in mode {mode:?} (positions {posn:?}): {w}", stream_str(stream)),
                 J::obj([
                     ("kind", J::s("c10")),
                     ("stream", J::s(stream_str(stream))),
                     ("mode", J::s(format!("{mode:?}"))),
-                    ("vcf", J::s(vcf_for(stream))),
+                    ("positions", J::s(format!("{posn:?}"))),
+                    ("vcf", J::s(vcf_for(stream, posn))),
                 ]),
             )
         })
@@ -240,7 +252,7 @@ fn parse_stream(s: &str) -> Option<Vec<Sym>> {
 
 pub fn run(tier: Tier) -> i32 {
     let mut rep = Report::new("C10", tier, "model_checking");
-    rep.rule = "record streams over the alphabet {counted, missing-in-p0 (projectable), multiallelic, exactly-sufficient, insufficient-in-p0, insufficient-in-p1, ploidy-error, ploidy-error-after-a-missing-sample, corrupt-line} for 4 samples in 2 populations; all streams of length 0..3 (thorough 0..4) plus all length-4 (thorough length-5) streams over a reduced 5-symbol alphabet; x modes {default, --strict, --project-shape 3,3}; each executed on the real binary. Oracle: reference create; mass + reported skipped = records; Y of 'Skipped X/Y' = records; failure at the first failing record in input order, naming its contig:position for skips and ploidy errors; failing runs write nothing to stdout; a strict run without failing record equals the default run. states = distinct (stream prefix) histories, transitions = records fed to the binary. Non-trivial = a stream containing both a counted record and a skipped/failing one.".into();
+    rep.rule = "record streams over the alphabet {counted, missing-in-p0 (projectable), multiallelic, exactly-sufficient, insufficient-in-p0, insufficient-in-p1, ploidy-error, ploidy-error-after-a-missing-sample, corrupt-line} for 4 samples in 2 populations; all streams of length 0..3 (thorough 0..4) plus all length-4 (thorough length-5) streams over a reduced 5-symbol alphabet; x modes {default, --strict, --project-shape 3,3} x positions {pairwise different, all records at one contig:position}; each executed on the real binary. Oracle: reference create; mass + reported skipped = records; Y of 'Skipped X/Y' = records; failure at the first failing record in input order, naming its contig:position for skips and ploidy errors; failing runs write nothing to stdout; a strict run without failing record equals the default run. states = distinct (stream prefix) histories, transitions = records fed to the binary. Non-trivial = a stream containing both a counted record and a skipped/failing one.".into();
 
     let full_len = tier.pick(3, 4);
     let mut streams: Vec<Vec<Sym>> = sequences(ALPHABET.len(), 0, full_len)
@@ -254,16 +266,19 @@ pub fn run(tier: Tier) -> i32 {
     }
     let modes = [Mode::Default, Mode::Strict, Mode::Project];
     let scratch = Scratch::new("c10");
-    let mut jobs: Vec<(usize, Mode)> = Vec::new();
+    let mut jobs: Vec<(usize, Mode, Pos)> = Vec::new();
     for i in 0..streams.len() {
         for m in modes {
-            jobs.push((i, m));
+            jobs.push((i, m, Pos::Unique));
+            if streams[i].len() >= 2 && streams[i].len() <= full_len {
+                jobs.push((i, m, Pos::Same));
+            }
         }
     }
-    let res = par_map(jobs.len(), |j| eval(&streams[jobs[j].0], jobs[j].1, &scratch));
+    let res = par_map(jobs.len(), |j| eval(&streams[jobs[j].0], jobs[j].1, jobs[j].2, &scratch));
     let mut nt = 0u64;
     let mut transitions = 0u64;
-    for ((i, m), v) in jobs.iter().zip(res) {
+    for ((i, m, _), v) in jobs.iter().zip(res) {
         let st = &streams[*i];
         transitions += st.len() as u64;
         let has_counted = st.contains(&Sym::Counted);
@@ -286,14 +301,14 @@ pub fn run(tier: Tier) -> i32 {
         name: "cli: record streams x modes".into(),
         evaluations: jobs.len() as u64,
         nontrivial: nt,
-        note: format!("{} streams (all of length 0..{full_len} over 9 symbols + length {extra_len} over 5 symbols) x 3 modes", streams.len()),
+        note: format!("{} streams (all of length 0..{full_len} over 9 symbols + length {extra_len} over 5 symbols) x 3 modes; streams of length 2..{full_len} additionally with every record at the same contig:position", streams.len()),
         exhaustive: true,
         extra: vec![("depth_bound".into(), J::u(extra_len))],
     });
     rep.sample(J::obj([
         ("stream", J::s("CMjP")),
         ("mode", J::s("Project")),
-        ("vcf", J::s(vcf_for(&parse_stream("CMjP").unwrap()))),
+        ("vcf", J::s(vcf_for(&parse_stream("CMjP").unwrap(), Pos::Unique))),
         ("expected", J::s("exit != 0, empty stdout, stderr names 'chr2:13' (the ploidy error at the 4th record)")),
     ]));
     rep.sample(J::obj([
@@ -315,6 +330,7 @@ pub fn replay(case: &J) -> Option<Vec<String>> {
         "Strict" => Mode::Strict,
         _ => Mode::Project,
     };
+    let posn = if case.get("positions").and_then(|p| p.as_str()) == Some("Same") { Pos::Same } else { Pos::Unique };
     let scratch = Scratch::new("c10r");
-    Some(eval(&stream, mode, &scratch).into_iter().map(|(k, w, _)| format!("{k} :: {w}")).collect())
+    Some(eval(&stream, mode, posn, &scratch).into_iter().map(|(k, w, _)| format!("{k} :: {w}")).collect())
 }
